@@ -249,6 +249,7 @@ namespace trompeloeil {
          << ". Sequence \"" << seq_name
          << "\" has no more pending expectations\n";
       send_report<specialized>(s, loc, os.str());
+      return;
     }
     bool first = true;
     std::ostringstream os;
